@@ -82,6 +82,31 @@ theorem allStrKeys_zipKeys (names : List Str) (vs : List V) : allStrKeys (zipKey
 
 /-! ### variants by name -/
 
+theorem findName_mem (n : Str) : ∀ (names : List Str), n ∈ names → ∃ i, findName n names = some i
+  | [], h => by simp at h
+  | m :: ms, h => by
+    simp only [findName]
+    by_cases hm : m = n
+    · exact ⟨0, by simp [hm]⟩
+    · simp only [hm, if_false]
+      have : n ∈ ms := by
+        simp only [List.mem_cons] at h
+        rcases h with h | h
+        · exact absurd h.symm hm
+        · exact h
+      obtain ⟨i, hi⟩ := findName_mem n ms this
+      exact ⟨i + 1, by simp [hi]⟩
+
+/-- a serialised struct has no entry that names no field: nothing is ignored -/
+theorem ignoredOK_zipKeys (all : List Str) : ∀ (ns : List Str) (vs : List V), (∀ n ∈ ns, n ∈ all) →
+    ignoredOK all (zipKeys ns vs) = .ok ()
+  | [], vs, _ => by simp [zipKeys, ignoredOK]
+  | n :: ns, [], _ => by simp [zipKeys, ignoredOK]
+  | n :: ns, v :: vs, h => by
+    obtain ⟨i, hi⟩ := findName_mem n all (h n (by simp))
+    simp only [zipKeys, ignoredOK, hi]
+    exact ignoredOK_zipKeys all ns vs (fun m hm => h m (by simp [hm]))
+
 theorem findName_of_getElem? (names : List Str) (i : Nat) (n : Str)
     (hnd : nodupStr names = true) (hi : names[i]? = some n) : findName n names = some i := by
   induction names generalizing i with
